@@ -22,6 +22,12 @@ pub use self::reader::{
     EventRecord, Record, SegmentBlock, SegmentBlockIter,
 };
 pub use self::writer::BucketSegmentWriter;
+
+/// Fault injection for the external verification harness (replay runner): when set, the next
+/// `BucketSegmentWriter::flush_writer` fails once. Compiled only with `--cfg sierra_db_sierradb_verif`.
+#[cfg(sierra_db_sierradb_verif)]
+pub static FAIL_NEXT_FLUSH_WRITER: std::sync::atomic::AtomicBool =
+    std::sync::atomic::AtomicBool::new(false);
 use crate::error::{InvalidHeaderError, ReadError};
 
 const BINCODE_CONFIG: bincode::config::Configuration<LittleEndian, Fixint, NoLimit> =
